@@ -598,6 +598,17 @@ func vfC05RunClientWS(cs *vfC05Case) vfC05Result {
 		}
 	}
 	vfWaitUntil(3*time.Second, func() bool { return vfInRoute() == 0 })
+	if cs.End != "fin" {
+		// the client has written its last <a/> before it routed the sentinel, but the peer's reader may not have
+		// counted it yet: give the answers a bounded time to arrive before they are compared with the requests
+		wantR := 0
+		for _, e := range cs.Elems {
+			if e.Kind == "r" {
+				wantR++
+			}
+		}
+		vfWaitUntil(10*time.Second, func() bool { amu.Lock(); defer amu.Unlock(); return nAns >= wantR })
+	}
 	go c.Disconnect() // cleanup in the background: Close waits ConnectTimeout for the peer's stream close
 	obs.mu.Lock()
 	res.handled = append([]string(nil), obs.handled...)
